@@ -94,14 +94,14 @@ def absence_of(sub, polarity, nz):
     return None
 
 
-def framer_paths(cx, kind, may_raise=None, consts=None):
+def framer_paths(cx, kind, may_raise=None, consts=None, default_kwargs=False):
     cls = cx.idx.cls(FRAMER_CLASSES[kind])
     f = cx.method(cls, 'processIncomingPacket')
     cbname = f.params[2]
     res = SelfResolver(cx.idx, stop=lambda fn: fn.name in INTEGRITY_FUNCS or fn.mod.name == 'pymodbus.utilities')
     nz = cx.nz(f.mod, cls)
     out = []
-    for p in cx.enum(f, cls, resolver=res, may_raise=may_raise or framer_may_raise, max_depth=4, consts=consts):
+    for p in cx.enum(f, cls, resolver=res, may_raise=may_raise or framer_may_raise, max_depth=4, consts=consts, default_kwargs=default_kwargs):
         annotate(p, heap=False)
         if contradictory(p):
             continue
